@@ -30,6 +30,9 @@ type l1 struct {
 	Ref kit.State
 	// AllowThreeWay disables the exclusion of the known finding index-three-way.
 	AllowThreeWay bool
+	// steps counts executed transactions: every second one goes through the server's
+	// transact handler instead of the harness' transcription of it.
+	steps int
 }
 
 func newL1(w *kit.World) (*l1, error) {
@@ -94,7 +97,10 @@ func (l *l1) step(ops []kit.Op) (*stepInfo, *mismatch) {
 			return info, nil
 		}
 	}
+	l.steps++
+	l.DB.ViaServer = l.steps%2 == 0
 	out := l.DB.Transact(decoded)
+	l.DB.ViaServer = false
 	info.Impl = out
 	assigned := func(i int) string {
 		if i < len(out.Results) && out.Results[i] != nil {
@@ -206,11 +212,51 @@ func (l *l1) step(ops []kit.Op) (*stepInfo, *mismatch) {
 	if d := kit.DiffStates(model.Post, post); len(d) > 0 {
 		return info, mm("state.differs", "database after commit differs from RFC 7047 model:\n%s", strings.Join(d, "\n"))
 	}
-	if m := l.checkUpdate(info, post); m != nil {
+	if !out.ViaServer {
+		if m := l.checkUpdate(info, post); m != nil {
+			return info, m
+		}
+	}
+	if m := l.checkIndexLookups(post); m != nil {
 		return info, m
 	}
 	l.Ref = model.Post
 	return info, nil
+}
+
+// checkIndexLookups: after every transaction (committed or not, reading or writing) each
+// stored row is found by the values of each schema index of its table: executing
+// operations must leave the database's indexes in agreement with its contents.
+func (l *l1) checkIndexLookups(post kit.State) *mismatch {
+	for _, tb := range l.W.S.Tables {
+		for _, idx := range tb.Indexes {
+			for _, u := range kit.SortedUUIDs(post[tb.Name]) {
+				row := post[tb.Name][u]
+				var conds []kit.Cond
+				skip := false
+				for _, c := range idx {
+					// the all-zero uuid is never named in a condition (representation, DESIGN 2.4)
+					skip = skip || hasZero(row[c])
+					conds = append(conds, kit.Cond{Col: c, Fn: "==", Val: row[c]})
+				}
+				if skip {
+					continue
+				}
+				dec, err := kit.DecodeOps(l.W.S, []kit.Op{{Op: "select", Table: tb.Name, Where: conds}})
+				if err != nil {
+					continue // a value the harness cannot name in a condition
+				}
+				got, err := l.DB.DB.List(l.DB.Name, tb.Name, dec[0].Where...)
+				if err != nil {
+					return mm("index.lookup-error", "List(%s where index %v of row %s): %v", tb.Name, idx, u, err)
+				}
+				if _, ok := got[u]; !ok || len(got) != 1 {
+					return mm("index.lookup", "table %s: selecting by the values of index %v of stored row %s returns %d rows (found=%v)", tb.Name, idx, u, len(got), ok)
+				}
+			}
+		}
+	}
+	return nil
 }
 
 // checkUpdate verifies the database.Update produced for a committed transaction (what
